@@ -360,3 +360,53 @@ Definition run_c42_big (c : (bool * bool * bool * bool) * Z * (list Z * Z) * lis
   let fuel := (length data + 2 + fold_right (fun o a => match o with OWrite d => length d + a | _ => a end) O ops)%nat in
   let '(rs, f) := run_ops fuel f0 ops in
   flat_map canon_res_d rs ++ [-1; digest (delivered (strm f)); -2; pos f; realpos f; zlen (rbuf f); zlen (wbuf f)].
+
+(* ---- timeouts: _read may raise socket.timeout (a Channel with a timeout whose peer pauses) --------
+   efaults: for each successive _read call, does it raise?  efault: did the last _read call raise?
+   A raising _read delivers nothing and consumes nothing; the exception leaves read(n) at the point
+   it was raised, i.e. with the chunks gathered so far in _rbuffer (fill_loop's state).
+   Only read(n) is modelled under timeouts (read() and readline() lose the gathered chunks in the
+   source as it is: known findings read-all-loses-data-on-exception / readline-loses-data-on-exception). *)
+Record estream := mkes { ebase : cstream; efault : bool; efaults : list bool }.
+Definition e_sread (s : estream) (rp n : Z) : list Z * estream :=
+  match efaults s with
+  | true :: r => ([], mkes (ebase s) true r)
+  | _ => let '(d, b') := c_sread (ebase s) rp n in (d, mkes b' false (tl (efaults s)))
+  end.
+Definition ebf := bf estream.
+
+Definition bf_read_ev (fuel : nat) (f : ebf) (n : Z) : result (list Z) * ebf :=
+  if closed f then (Raise IOErr, f)
+  else if negb (fl_read f) then (Raise IOErr, f)
+  else if n <? 0 then (Raise ValueErr, f)          (* read-all: not modelled under timeouts *)
+  else if n <=? zlen (rbuf f) then
+    (Ok (take n (rbuf f)),
+     upd_rd f (drop n (rbuf f)) (pos f + zlen (take n (rbuf f))) (realpos f) (strm f))
+  else
+    match fill_loop e_sread fuel n f with
+    | None => (Raise OutOfFuel, f)
+    | Some f1 =>
+        if efault (strm f1) then (Raise SocketTimeout, f1)     (* the exception leaves the loop here *)
+        else let res := take n (rbuf f1) in
+             (Ok res, upd_rd f1 (drop n (rbuf f1)) (pos f1 + zlen res) (realpos f1) (strm f1))
+    end.
+
+Fixpoint erun (fuel : nat) (f : ebf) (ns : list Z) : list (result (list Z)) * ebf :=
+  match ns with
+  | [] => ([], f)
+  | n :: r => let '(x, f1) := bf_read_ev fuel f n in
+              let '(xs, f2) := erun fuel f1 r in (x :: xs, f2)
+  end.
+
+Definition ok_bytes (r : result (list Z)) : list Z := match r with Ok b => b | Raise _ => [] end.
+Definition elogical (f : ebf) : list Z := rbuf f ++ sdata (ebase (strm f)).
+
+Definition canon_rb (r : result (list Z)) : list Z :=
+  match r with Ok b => 1 :: zlen b :: b | Raise e => [0; exn_code e] end.
+
+(* case = (bufsize, stream data, read-chunk oracle, fault schedule, sizes of successive read(n) calls) *)
+Definition run_c42_ev (c : Z * list Z * list Z * list bool * list Z) : list Z :=
+  let '(bufsz, data, ro, faults, ns) := c in
+  let f0 : ebf := set_mode true false false false bufsz 0 (mkes (mkcs data ro [] []) false faults) in
+  let '(rs, f) := erun (length data + length faults + 2)%nat f0 ns in
+  flat_map canon_rb rs ++ [-2; pos f; realpos f; zlen (rbuf f)].
